@@ -94,7 +94,9 @@ class History:
             value = ga.NON_ARRAYS[s["nonarray"]]
             type_ok = dtype_ok = False
         else:
-            value = ga.make_value(s["vk"], s["shape"], s["dtype"])
+            value, variant = ga.variant_value(ga.make_value(s["vk"], s["shape"], s["dtype"]), s)
+            if variant:
+                self.ctx.classes[variant] += 1
             type_ok = ga.type_accepts(s["at"], s["vk"])
             from vf.models import dtypes as dt
 
